@@ -151,7 +151,15 @@ class StubSim(DynamicOrderSimulation):
         d = self.finish_at <= self.t
         return np.bool_(d) if self.np_flags else d
 
+    info_fault_in = None      # (round 6) the n-th get_info from now raises, once (n = 0: the next one)
+
     def get_info(self, agent_id, **kwargs):
+        if self.info_fault_in is not None:
+            if self.info_fault_in <= 0:
+                self.info_fault_in = None
+                self.info_fault_fired = True
+                raise RuntimeError("injected fault: the simulation could not produce this info just now")
+            self.info_fault_in -= 1
         return {"t": self.t}
 
     # ghost (non-mutating)
